@@ -47,7 +47,9 @@ static Crystal_Struct *mk(const char *name) {
     c->a = 3.0 + (h % 7) * 0.37; c->b = 4.0 + (h % 5) * 0.21; c->c = 5.0 + (h % 3) * 0.5;
     c->alpha = (h % 2) ? 90.0 : 80.0 + (h % 11); c->beta = 90.0 + (h % 4) * 5; c->gamma = (h % 3) ? 90.0 : 110.0;
     c->volume = 0.0;                        /* deliberately wrong: "recomputed volume" must be observable */
-    c->n_atom = 1 + h % 3; c->atom = calloc(c->n_atom, sizeof *c->atom);
+    c->n_atom = 1 + h % 3;
+    if (name[0] == 'O') c->n_atom = 0;      /* names in O: a crystal without atoms whose atom pointer is nevertheless a live buffer (reserved, not yet filled) */
+    c->atom = calloc(c->n_atom ? c->n_atom : 1, sizeof *c->atom);
     for (int i = 0; i < c->n_atom; i++) { c->atom[i].Zatom = 6 + (h + i) % 20; c->atom[i].fraction = (i % 2) ? 0.5 : 1.0; c->atom[i].x = 0.25 * i; c->atom[i].y = 0.1 * (h % 7); c->atom[i].z = 0.5; }
     return c;
 }
